@@ -2,11 +2,17 @@
 from kernel_main import main, run  # noqa
 
 
+def kind_a(report, tier, seed):
+    from contracts import idexpr
+
+    idexpr.run(report, {"kernel_type"})
+
+
 def check(argv):
     return run(
-        "C04", argv, analyses=["compute_ro", "value_blind", "assemble_blind"],
+        "C04", argv, kind_a=kind_a, analyses=["compute_ro", "value_blind", "assemble_blind"],
         static_note="static analyses of standins/static_ir.py are sound over-approximations (declared pointer types, pointer-origin taint)",
-        explanation="Kind B, per kernel of the family and for all inputs: the compute kernel contains no allocation and no store to an integer array, a capacity "
+        explanation="Kind A: KernelType.is_assemble/is_compute truth table proved. Kind B, per kernel of the family and for all inputs: the compute kernel contains no allocation and no store to an integer array, a capacity "
                     "or a struct field (it cannot change the structure); no branch/loop condition, index or integer variable of any kernel depends on float data "
                     "(control flow and cursors are value-independent, so compute can be re-run on re-valued inputs); the assemble kernel reads no input values. "
                     "Kind C: assemble;compute (compute run twice) against evaluate on the reference machine - identical structure, identical polynomial values.",
